@@ -52,8 +52,106 @@ OPS = [
 ]
 
 
+HIST_OPS = ["A", "B", "C", "D", "E", "G", "I"]
+
+
 def structures(tier, seed):
-    return [{"sid": f"op={o}", "op": o} for o in OPS]
+    out = [{"sid": f"op={o}", "op": o, "part": "frame"} for o in OPS]
+    import itertools
+    for p, q in itertools.permutations(HIST_OPS, 2):
+        out.append({"sid": f"history;{p}-then-{q}", "part": "history", "seq": [p, q]})
+    for trip in (("A", "C", "B"), ("D", "A", "E"), ("G", "A", "G"), ("C", "E", "D"), ("I", "A", "B")):
+        out.append({"sid": f"history;{'-then-'.join(trip)}", "part": "history", "seq": list(trip)})
+    out.append({"sid": "history;canary;stateful-stub", "part": "history", "seq": ["A", "B"], "canary": True})
+    return out
+
+
+def run_history(s):
+    """history independence, directly: the last operation of a sequence run on one Grid (re-using the same argument
+    objects) gives the same result as that operation run first on a fresh Grid - dims, exit kind and all values"""
+    mods = util.xgcm_modules()
+    covers = {}
+    canary = s.get("canary")
+
+    def body():
+        from xgcm.padding import pad
+        w = SymWorld()
+        layout, ns, dims, ds = build(w, "simple")
+        X, Y = layout["X"], layout["Y"]
+        gfill = w.real("gfill")
+        gk = dict(periodic=False, boundary={"X": "fill", "Y": "extend", "Z": "fill"}, fill_value=gfill, metrics={("X",): ["dx_c", "dx_l"], ("Y",): ["dy_c"]})
+        c = w.array("C", ["t", Y["center"], X["center"]], ds, with_coords=True)
+        u = w.array("U", ["t", Y["center"], X["left"]], ds)
+        v = w.array("V", ["t", Y["left"], X["center"]], ds)
+        f1, f2, f3 = w.real("f1"), w.real("f2"), w.real("f3")
+        args = {"A_b": TrackedDict({"X": "extend"}), "A_f": TrackedDict({"X": f1}), "G_v": TrackedDict({"X": u}), "G_o": TrackedDict({"Y": v}), "I_b": TrackedDict({"Y": "periodic"})}
+        ops = {
+            "A": lambda g: g.diff(c, "X", to="left", boundary=args["A_b"], fill_value=args["A_f"]),
+            "B": lambda g: g.diff(c, "X", to="left"),
+            "C": lambda g: pad(c, g, boundary_width={"X": (1, 1)}, boundary="periodic"),
+            "D": lambda g: g.interp(c, ["X", "Y"], fill_value=f2),
+            "E": lambda g: g.cumsum(c, "X", to="left", boundary="fill", fill_value=f3),
+            "G": lambda g: g.diff(args["G_v"], "X", to="center", other_component=args["G_o"]),
+            "I": lambda g: g.max(c, "Y", boundary=args["I_b"]),
+        }
+
+        def run(g, name):
+            try:
+                return ("returned", ops[name](g))
+            except (symx.EngineUnsupported, symx.InfeasiblePath, symx.PathAbort):
+                raise
+            except Exception as e:  # noqa
+                return ("raised", type(e).__name__)
+        g1 = w.grid(ds, layout, **gk)
+        if canary:
+            # a deliberately stateful stand-in for the Grid's kwarg completion: remembers the last per-call value
+            import xgcm.grid as GR
+            memo = {}
+            orig = GR.Grid._complete_user_kwargs_using_axis_defaults
+
+            def leaky(self, user_kwargs, property):
+                if user_kwargs is not None:
+                    memo[property] = user_kwargs
+                return orig(self, memo.get(property), property)
+            GR.Grid._complete_user_kwargs_using_axis_defaults = leaky
+        try:
+            for name in s["seq"][:-1]:
+                run(g1, name)
+            last = s["seq"][-1]
+            after = run(g1, last)
+        finally:
+            if canary:
+                GR.Grid._complete_user_kwargs_using_axis_defaults = orig
+        g2 = w.grid(ds, layout, **gk)
+        fresh = run(g2, last)
+        covers["history"] = covers.get("history", 0) + 1
+        oblige("same-exit-kind-as-on-a-fresh-grid", after[0] == fresh[0] and (after[0] == "returned" or after[1] == fresh[1]), detail=f"{after[0]} vs {fresh[0]}")
+        if after[0] != "returned" or fresh[0] != "returned":
+            return
+        a, f = after[1], fresh[1]
+        oblige("same-dims-as-on-a-fresh-grid", tuple(a.dims) == tuple(f.dims), detail=f"{a.dims} vs {f.dims}")
+        if tuple(a.dims) != tuple(f.dims):
+            return
+        q = {d: z3.Int(f"q_{d}") for d in a.dims}
+        rng = z3.And(*[z3.And(q[d] >= 0, q[d] < zint(f.sizes[d])) for d in f.dims])
+        for d in a.dims:
+            oblige(f"same-size:{d}", zint(a.sizes[d]) == zint(f.sizes[d]))
+        oblige("same-values-as-on-a-fresh-grid", z3.Implies(rng, a.elem(q) == f.elem(q)))
+        oblige("same-coordinates-as-on-a-fresh-grid", set(a.coords) == set(f.coords))
+    with util.patched(*util.std_patches(mods)):
+        rep = symx.explore(body, s["sid"])
+    obs = []
+    for name, ob in rep.merged().items():
+        rec = {"fn": "history", "clause": name, "status": ob.status, "time": ob.time, "detail": ob.detail}
+        if ob.status == "failed":
+            rec["witness"] = {"op": "history", "seq": s["seq"], "detail": ob.detail, "model": {k: v for k, v in model_values(ob.model).items() if k != "__funcs__"}}
+        if canary:
+            if name == "same-values-as-on-a-fresh-grid":
+                rec["canary"] = True
+                obs.append(rec)
+            continue
+        obs.append(rec)
+    return {"sid": s["sid"], "obligations": obs, "paths": rep.paths, "queries": rep.queries, "solver_time": rep.solver_time, "engine_errors": rep.engine_errors, "covers": covers}
 
 
 def snap_arr(a):
@@ -122,6 +220,8 @@ def build(w, kind):
 
 
 def run_structure(s):
+    if s.get("part") == "history":
+        return run_history(s)
     mods = util.xgcm_modules()
     op = s["op"]
     covers = {}
@@ -289,7 +389,7 @@ def run_structure(s):
             "solver_time": rep.solver_time, "engine_errors": rep.engine_errors, "covers": covers}
 
 
-REQUIRED_COVERS = ["returned", "raised"]
+REQUIRED_COVERS = ["returned", "raised", "history"]
 
 
 def replay(ob):
@@ -303,6 +403,8 @@ def replay(ob):
 
     warnings.simplefilter("ignore")
     op = (ob.get("witness") or {}).get("op")
+    if op == "history":
+        return replay_history(ob)
     n = 4
     ds = xr.Dataset(coords={"x_c": np.arange(n), "x_l": np.arange(n), "x_o": np.arange(n + 1), "y_c": np.arange(n), "y_l": np.arange(n),
                             "z_c": np.arange(3), "z_o": np.arange(4), "t": np.arange(2)})
@@ -417,3 +519,49 @@ def replay(ob):
         return {"confirmed": False, "text": "\n".join(text)}
     conf = any(t.startswith("ARGUMENT MODIFIED") for t in text)
     return {"confirmed": conf, "text": "\n".join(text)}
+
+
+def replay_history(ob):
+    import numpy as np
+    import xarray as xr
+    import xgcm
+    from xgcm.padding import pad
+
+    seq = ob["witness"]["seq"]
+    n = 4
+    ds = xr.Dataset(coords={"x_c": np.arange(n), "x_l": np.arange(n), "x_o": np.arange(n + 1), "y_c": np.arange(n), "y_l": np.arange(n), "z_c": np.arange(3), "z_o": np.arange(4), "t": np.arange(2)})
+    rng = np.random.default_rng(0)
+    ds["dx_c"] = ("x_c", rng.random(n) + 1)
+    ds["dx_l"] = ("x_l", rng.random(n) + 1)
+    ds["dy_c"] = ("y_c", rng.random(n) + 1)
+    coords = {"X": {"center": "x_c", "left": "x_l", "outer": "x_o"}, "Y": {"center": "y_c", "left": "y_l"}, "Z": {"center": "z_c", "outer": "z_o"}}
+    mk = lambda: xgcm.Grid(ds, coords=coords, periodic=False, boundary={"X": "fill", "Y": "extend", "Z": "fill"}, fill_value=7.5, metrics={("X",): ["dx_c", "dx_l"], ("Y",): ["dy_c"]}, autoparse_metadata=False)  # noqa
+    c = xr.DataArray(rng.random((2, n, n)), dims=("t", "y_c", "x_c"), name="C")
+    u = xr.DataArray(rng.random((2, n, n)), dims=("t", "y_c", "x_l"), name="U")
+    v = xr.DataArray(rng.random((2, n, n)), dims=("t", "y_l", "x_c"), name="V")
+    args = {"A_b": {"X": "extend"}, "A_f": {"X": 0.0}, "G_v": {"X": u}, "G_o": {"Y": v}, "I_b": {"Y": "periodic"}}
+    ops = {
+        "A": lambda g: g.diff(c, "X", to="left", boundary=args["A_b"], fill_value=args["A_f"]), "B": lambda g: g.diff(c, "X", to="left"),
+        "C": lambda g: pad(c, g, boundary_width={"X": (1, 1)}, boundary="periodic"), "D": lambda g: g.interp(c, ["X", "Y"], fill_value=2.25),
+        "E": lambda g: g.cumsum(c, "X", to="left", boundary="fill", fill_value=-3.0), "G": lambda g: g.diff(args["G_v"], "X", to="center", other_component=args["G_o"]),
+        "I": lambda g: g.max(c, "Y", boundary=args["I_b"]),
+    }
+
+    def run(g, name):
+        try:
+            return ("returned", ops[name](g))
+        except Exception as e:  # noqa
+            return ("raised", f"{type(e).__name__}: {e}")
+    g1 = mk()
+    for name in seq[:-1]:
+        run(g1, name)
+    after = run(g1, seq[-1])
+    fresh = run(mk(), seq[-1])
+    text = [f"sequence {' ; '.join(seq)} on one Grid vs {seq[-1]} on a fresh Grid"]
+    if after[0] != fresh[0]:
+        return {"confirmed": True, "text": "\n".join(text + [f"after the history: {after[0]} {after[1] if after[0] == 'raised' else ''}; fresh: {fresh[0]}"])}
+    if after[0] == "returned":
+        a, f = after[1], fresh[1]
+        if a.dims != f.dims or not np.allclose(a.values, f.values):
+            return {"confirmed": True, "text": "\n".join(text + ["the result depends on the calls made before on the same Grid"])}
+    return {"confirmed": False, "text": "\n".join(text + ["same result natively"])}
